@@ -36,7 +36,11 @@ ASSUMPTIONS = [
     "MuJoCo/G1 pre-reset successors of episode ends are not judged (unbounded boxes; a non-finite successor is "
     "exactly what their is_finite termination test is for)",
     "XLA CPU executes the same compiled program deterministically; the fresh interpreter uses the same K, T "
-    "(same HLO) and the same XLA flags",
+    "(same HLO) and the same XLA flags. If the unit's process and the fresh interpreter (PYTHONHASHSEED=1, no "
+    "history) disagree, a second fresh interpreter (PYTHONHASHSEED=2, with the unit's tracing/rollout history) is "
+    "consulted: interpreters that disagree with each other -> violation; two agreeing fresh interpreters against "
+    "a deviating unit process -> inconclusive (observed once, on all three G1 units, while the machine was out of "
+    "memory: the unit had compiled its own program instead of loading the cached one; not reproducible)",
     "documented default spaces (classic-control tables in the lerax docstrings, Gymnasium v5 observation sizes "
     "and the v5 size formula in nq/nv/nbody for the observation flags) are the reference for the static check",
 ]
@@ -194,6 +198,13 @@ def _np_tree(d):
     return {k: np.asarray(v) for k, v in d.items()}
 
 
+class _NullCtx:
+    """ctx stand-in for the fresh interpreter: same code path, nothing recorded."""
+
+    def __getattr__(self, name):
+        return lambda *a, **k: None
+
+
 def _child_main(path):
     """Fresh interpreter: rebuild the env from its spec, replay the same keys and actions."""
     job = json.loads(open(path).read())
@@ -207,6 +218,15 @@ def _child_main(path):
 
     env = build_env(job["spec"])
     acts = np.load(job["actions"])["a"]
+    if job.get("history"):
+        # second opinion: a fresh interpreter that, like the unit's own process, has traced reset/step abstractly
+        # and run the compiled rollout on other inputs before the rollout that is compared
+        import random as _random
+
+        _random.seed(4242)
+        np.random.seed(4242)
+        static_checks(_NullCtx(), env, job["spec"])
+        _rollout_fn(job["T"], job["succ"])(env, _keys(job["seed"] + 1, job["K"]), jnp.asarray(acts[::-1].copy()))
     out = _np_tree(_rollout_fn(job["T"], job["succ"])(env, _keys(job["seed"], job["K"]), jnp.asarray(acts)))
     out["sampled"] = np.asarray(_sample_actions(env, job["seed"], job["K"], job["T"]))
     np.savez(job["out"], **out)
@@ -647,8 +667,8 @@ def _first_diff(a, b, k):
 
 
 class Runner:
-    def __init__(self, ctx, succ):
-        self.ctx, self.succ = ctx, succ
+    def __init__(self, ctx, succ, interleave=True):
+        self.ctx, self.succ, self.interleave = ctx, succ, interleave
         self.pending = []  # (future, tmpdir, spec, reference outputs)
         self.pool = None
         self.n = 0
@@ -711,8 +731,8 @@ class Runner:
 
         _random.seed(self.n * 977 + 1)
         np.random.seed(self.n * 31 + 5)
-        other = fn(env, _keys(seed + 1, K), jnp.asarray(acts[::-1].copy()))  # different work in between
-        jax.block_until_ready(other)
+        if self.interleave:  # different work through the same compiled program in between (cheap envs only)
+            jax.block_until_ready(fn(env, _keys(seed + 1, K), jnp.asarray(acts[::-1].copy())))
         again = _np_tree(fn(env, keys, jnp.asarray(acts)))
         ctx.monitor("rerun_comparisons")
         d = _same(out, again)
@@ -731,8 +751,26 @@ class Runner:
         return out
 
     # ---- fresh interpreter
-    def _spawn_child(self, spec, seed, K, T, acts, out, sampled):
+    def _child(self, tmp, tag, spec, seed, K, T, hashseed, history):
+        """subprocess.run (with timeout) of a fresh interpreter that rebuilds the env from its spec and replays the
+        same keys and actions through the same rollout function (same K, T: same program)."""
         import subprocess
+
+        job = {"spec": spec, "seed": seed, "K": K, "T": T, "succ": self.succ, "history": history,
+               "actions": os.path.join(tmp, "actions.npz"), "out": os.path.join(tmp, f"out{tag}.npz")}
+        with open(os.path.join(tmp, f"job{tag}.json"), "w") as f:
+            json.dump(job, f)
+        env = dict(os.environ)
+        env["PYTHONHASHSEED"] = str(hashseed)  # a different hash seed is part of "fresh Python-side state"
+        root = os.path.dirname(os.path.dirname(os.path.abspath(__file__)))
+        cmd = [sys.executable, "-X", "faulthandler", "-m", "checks.c02", "--child", os.path.join(tmp, f"job{tag}.json")]
+        timeout = 900 if spec["base"] in CLASSIC else 2400
+        p = subprocess.run(cmd, env=env, cwd=root, timeout=timeout, stdout=subprocess.PIPE, stderr=subprocess.STDOUT, text=True)
+        if p.returncode != 0 or not os.path.exists(job["out"]):
+            raise RuntimeError(f"fresh interpreter failed (exit {p.returncode}): {p.stdout[-600:]}")
+        return dict(np.load(job["out"]))
+
+    def _spawn_child(self, spec, seed, K, T, acts, out, sampled):
         import tempfile
         from concurrent.futures import ThreadPoolExecutor
 
@@ -740,44 +778,43 @@ class Runner:
             self.pool = ThreadPoolExecutor(max_workers=2)
         tmp = tempfile.mkdtemp(prefix="verif-c02-")
         np.savez(os.path.join(tmp, "actions.npz"), a=acts)
-        job = {"spec": spec, "seed": seed, "K": K, "T": T, "succ": self.succ,
-               "actions": os.path.join(tmp, "actions.npz"), "out": os.path.join(tmp, "out.npz")}
-        with open(os.path.join(tmp, "job.json"), "w") as f:
-            json.dump(job, f)
-        env = dict(os.environ)
-        env["PYTHONHASHSEED"] = "1"  # a different hash seed is part of "fresh Python-side state"
-        root = os.path.dirname(os.path.dirname(os.path.abspath(__file__)))
-        cmd = [sys.executable, "-X", "faulthandler", "-m", "checks.c02", "--child", os.path.join(tmp, "job.json")]
-        timeout = 900 if spec["base"] in CLASSIC else 2400
-        fut = self.pool.submit(lambda: subprocess.run(cmd, env=env, cwd=root, timeout=timeout, stdout=subprocess.PIPE,
-                                                      stderr=subprocess.STDOUT, text=True))
+        fut = self.pool.submit(self._child, tmp, "A", spec, seed, K, T, 1, False)
         ref = dict(out)
         ref["sampled"] = np.asarray(sampled).reshape((K * T,) + np.asarray(sampled).shape[2:])
-        self.pending.append((fut, tmp, spec, ref))
+        self.pending.append((fut, tmp, spec, ref, (seed, K, T)))
 
     def finish(self):
         import shutil
         import subprocess
 
         ctx = self.ctx
-        for fut, tmp, spec, ref in self.pending:
+        for fut, tmp, spec, ref, (seed, K, T) in self.pending:
             name = _stack_name(spec)
             try:
-                p = fut.result()
-                if p.returncode != 0 or not os.path.exists(os.path.join(tmp, "out.npz")):
-                    ctx.inconc(f"{name}: fresh interpreter failed (exit {p.returncode}): {p.stdout[-600:]}")
-                else:
-                    got = dict(np.load(os.path.join(tmp, "out.npz")))
-                    ctx.monitor("fresh_process_comparisons")
-                    d = _same(ref, got)
-                    if d:
+                got = fut.result()
+                ctx.monitor("fresh_process_comparisons")
+                d = _same(ref, got)
+                if d:
+                    # Second opinion before blaming lerax: another fresh interpreter (other hash seed) that first
+                    # repeats this process's history (abstract tracing, another rollout). Python-side state makes
+                    # the interpreters disagree with each other; two agreeing fresh interpreters against a
+                    # deviating unit process is what a differently compiled program looks like (seen once under
+                    # memory exhaustion), which this property is not about.
+                    got2 = self._child(tmp, "B", spec, seed, K, T, 2, True)
+                    ctx.monitor("fresh_process_second_opinions")
+                    if _same(got, got2) is None:
+                        ctx.monitor("unit_process_deviates_from_two_agreeing_fresh_interpreters")
+                        ctx.inconc(f"{name}: the unit's process and two agreeing fresh interpreters differ in '{d}' "
+                                   "(not reproducible as Python-side state; compiled program differs?)")
+                    else:
                         what = "sampled-actions" if d.startswith("sampled") else "rollout"
                         ctx.violation(f"{spec['base'].lower()}-{what}-differ-in-fresh-interpreter",
-                                      {"stack": name, "spec": spec, **_first_diff(ref, got, d)} if d in ref else {"stack": name, "what": d})
+                                      {"stack": name, "spec": spec, "second_fresh_interpreter_agrees_with_unit_process": _same(ref, got2) is None,
+                                       **_first_diff(ref, got, d)} if d in ref else {"stack": name, "what": d})
             except subprocess.TimeoutExpired:
                 ctx.inconc(f"{name}: fresh interpreter timed out")
             except Exception as e:  # noqa: BLE001
-                ctx.inconc(f"{name}: fresh interpreter comparison failed: {e!r}")
+                ctx.inconc(f"{name}: fresh interpreter comparison failed: {e!r}"[:900])
             finally:
                 shutil.rmtree(tmp, ignore_errors=True)
         self.pending = []
@@ -912,8 +949,9 @@ def _mj_variants(base, quick):
 
 def u_mujoco(ctx, base):
     rng = ctx.rng
-    K, T = ctx.n(16, 32), ctx.n(150, 400)
-    run = Runner(ctx, succ=False)
+    heavy = base in ("Ant", "Humanoid", "HumanoidStandup")
+    K, T = 16, ctx.n(150, 128 if heavy else 256)
+    run = Runner(ctx, succ=False, interleave=False)
     never = base in NEVER_ENDS
     tl = lambda: ["TimeLimit", {"n": int(rng.choice([25, 60, 100]))}]  # noqa: E731
     variants = _mj_variants(base, ctx.quick)
@@ -940,7 +978,7 @@ def u_mujoco(ctx, base):
 # ====================================================================== Unitree G1
 def u_g1(ctx, base):
     K, T = 8, 96
-    run = Runner(ctx, succ=False)
+    run = Runner(ctx, succ=False, interleave=False)
     run.run({"base": base, "kw": {}, "wrappers": [["TimeLimit", {"n": 40}]]}, K, T, child=True)
     run.finish()
     for m in ("observations_checked", "episode_ends", "sampled_actions_checked", "contains_agreement_eager",
